@@ -42,6 +42,7 @@ type Enc struct {
 	published   []publishedLoc // heap-resident locals whose boxed address was stored in memory
 	allocN      int
 	allocRefs   []T
+	allocAt     map[string]allocPoint // where (frame, block) an allocation constant was created
 
 	loopMods map[*ssa.BasicBlock]map[string]bool // from pass 1
 
@@ -139,6 +140,11 @@ type loopInfo struct {
 	frame     *Frame
 	headState *State // state assumed at head (after havoc)
 	headPhis  map[ssa.Value]Val
+}
+
+type allocPoint struct {
+	fr *Frame
+	b  *ssa.BasicBlock
 }
 
 type publishedLoc struct {
